@@ -385,6 +385,10 @@ impl Prop for C05 {
             v.push(case_of(&plan, json!({})));
         }
         v.push(json!({"f": "pair-codec", "seed": seed}));
+        for k in 0..(if tier == Tier::Quick { 4u64 } else { 200 }) {
+            v.push(json!({"f": "byzantine-customer", "seed": mix(&[seed, 0xC05B, k]), "variant": if k % 2 == 0 { "old-lock-mismatch-linked" } else { "old-lock-mismatch-unlinked" },
+                          "cust": 500 + k, "merch": 40 + k, "amount": 5, "history": 0, "mspec": "9001"}));
+        }
         CaseSet {
             enumerated: v,
             random: match tier {
@@ -415,6 +419,18 @@ impl Prop for C05 {
             pair_codec(&mut o, case["seed"].as_u64().unwrap_or(0));
             return o;
         }
+        if case["f"] == "byzantine-customer" {
+            // the last clause against a lying customer: a pay proof whose lock commitment is to a
+            // decoy lock (C02's forger); if the merchant accepts it, the payment completes with the
+            // decoy pair and the old state is never revoked
+            crate::props::c02::run_case(&mut o, case);
+            keep(&mut o, &["pay-token-without-revocation-of-old-state", "wrong-revocation-accepted", "lock-commitment-not-to-old-lock"]);
+            o.bump("fault.lock.decoy-lock-commitment");
+            o.nontrivial = true;
+            o.events = o.stats.iter().filter(|(k, _)| k.starts_with("event.")).map(|(_, v)| *v).sum();
+            o.shape = mix(&[0xC05B, case["seed"].as_u64().unwrap_or(0)]);
+            return o;
+        }
         let plan = plan_of(case);
         let _ = run_plan(&plan, &mut o);
         keep(&mut o, &C05_CLASSES);
@@ -422,13 +438,13 @@ impl Prop for C05 {
         o
     }
     fn shrink(&self, case: &Value) -> Vec<Value> {
-        if case["f"] == "pair-codec" {
+        if case["f"] == "pair-codec" || case["f"] == "byzantine-customer" {
             return Vec::new();
         }
         shrink_world_case(case)
     }
     fn rule(&self) -> String {
-        "two case families. pair-codec: revocation pairs whose SHA3 digest lies in chosen bands (found by a seeded brute-force search over ~10^6 secrets: just above the group order q, just below q, near 2^256, any value >= q) are presented to the decoder as (digest mod q, secret, index) and as (raw digest, secret, index), and their secrets are fed to pair generation through a crafted entropy stream; every pair that decodes or is generated must satisfy lock = SHA3(secret || index) as a canonical scalar, and canonical ones must decode. world: one case = one plan in which every accepted pay proof is followed, before the right (pair, blinding factor), by 0-6 wrong candidates carried to the merchant's pending payment: the new state's pair (read from the customer's stage image), a fresh pair, a pair recorded from another payment / channel, the right pair with a random / off-by-one / foreign blinding factor, and pair encodings with lock, secret or index altered (which the decoder must refuse). Distinct = distinct executed event/outcome sequence; non-trivial = at least one wrong candidate was presented".into()
+        "three case families. byzantine-customer: a lying customer (C02's raw prover) presents a pay proof whose revocation-lock commitment is to a decoy lock; if the merchant accepts, the decoy pair completes the payment and the old state is never revoked. pair-codec: revocation pairs whose SHA3 digest lies in chosen bands (found by a seeded brute-force search over ~10^6 secrets: just above the group order q, just below q, near 2^256, any value >= q) are presented to the decoder as (digest mod q, secret, index) and as (raw digest, secret, index), and their secrets are fed to pair generation through a crafted entropy stream; every pair that decodes or is generated must satisfy lock = SHA3(secret || index) as a canonical scalar, and canonical ones must decode. world: one case = one plan in which every accepted pay proof is followed, before the right (pair, blinding factor), by 0-6 wrong candidates carried to the merchant's pending payment: the new state's pair (read from the customer's stage image), a fresh pair, a pair recorded from another payment / channel, the right pair with a random / off-by-one / foreign blinding factor, and pair encodings with lock, secret or index altered (which the decoder must refuse). Distinct = distinct executed event/outcome sequence; non-trivial = at least one wrong candidate was presented".into()
     }
     fn assumptions(&self) -> Vec<String> {
         vec!["SHA3-256(secret || index) is recomputed by the harness for every pair seen in a lock message or accepted by the decoder".into()]
